@@ -11,21 +11,26 @@ open Spec
 def SLegal (q : Pos) (m : Move) : Prop := (Spec.step (Spec.abs q) (Spec.decode m)).isSome = true
 
 /-- The facts about the bit-level position code the book argument rests on, for the positions satisfying
-an invariant `Inv` (C01 proves them for its well-formedness invariant):
+an invariant `Inv` and the (position, move) pairs satisfying a side condition `Ok` — C01's `move_refines`
+proves the second field for `Inv := WF basis` and `Ok p m := m.type ≠ Pass ∧ StackLimit p m` (the internal
+pass move is accepted by `Move` but is no move of the rule book; results must respect the 64-piece limit):
 a move accepted by `Move` is legal by the rule book and leads to the position the rule book says;
 the `k`-th image rebuilt by `Symmetries` shows the list-level image. -/
-structure PosFacts (basis : Array W) (Inv : Pos → Prop) : Prop where
-  new : ∀ cfg p, Pos.new cfg = .ok p → Inv p
-  apply : ∀ p m p', Inv p → p.apply basis m = .ok p' →
+structure PosFacts (basis : Array W) (size : Nat) (Inv : Pos → Prop) (Ok : Pos → Move → Prop) : Prop where
+  new : ∀ p, Pos.new { size := size, pieces := 0, capstones := 0, blackWinsTies := false } = .ok p → Inv p
+  apply : ∀ p m p', Inv p → Ok p m → p.apply basis m = .ok p' →
     Inv p' ∧ p'.cfg.size = p.cfg.size ∧ Spec.step (Spec.abs p) (Spec.decode m) = some (Spec.abs p')
-  image : ∀ p k q, Inv p → imagePos basis p k = .ok q → Spec.abs q = Sym.state k (Spec.abs p)
 
-theorem decode_place {m : Move} {x y : Int} {kd : Kind} (h : Spec.decode m = .place x y kd) : x = m.x ∧ y = m.y := by
+/-- the `k`-th image rebuilt by `Symmetries` (`At` + `FromSquares`) shows the list-level image -/
+def ImageFact (basis : Array W) (Inv : Pos → Prop) : Prop :=
+  ∀ p k q, Inv p → imagePos basis p k = .ok q → Spec.abs q = Sym.state k (Spec.abs p)
+
+theorem decode_place_xy {m : Move} {x y : Int} {kd : Kind} (h : Spec.decode m = .place x y kd) : x = m.x ∧ y = m.y := by
   unfold Spec.decode at h
   repeat' split at h
   all_goals first | (cases h; exact ⟨rfl, rfl⟩) | cases h
 
-theorem decode_slide {m : Move} {x y : Int} {d : Dir} {ds : List Nat} (h : Spec.decode m = .slide x y d ds) :
+theorem decode_slide_xy {m : Move} {x y : Int} {d : Dir} {ds : List Nat} (h : Spec.decode m = .slide x y d ds) :
     x = m.x ∧ y = m.y := by
   unfold Spec.decode at h
   repeat' split at h
@@ -38,13 +43,13 @@ theorem legal_onBoard {s : State} {m : Move} (h : (Spec.step s (Spec.decode m)).
   | invalid => rw [hd] at h; simp [Spec.step] at h
   | place x y kd =>
     rw [hd, step_place] at h
-    obtain ⟨rfl, rfl⟩ := decode_place hd
+    obtain ⟨rfl, rfl⟩ := decode_place_xy hd
     by_cases hb : s.onBoard m.x m.y = true
     · exact (State.onBoard_iff _ _ _).1 hb
     · simp [hb] at h
   | slide x y d drops =>
     rw [hd, step_slide] at h
-    obtain ⟨rfl, rfl⟩ := decode_slide hd
+    obtain ⟨rfl, rfl⟩ := decode_slide_xy hd
     by_cases h0 : s.ply < 2
     · simp [h0] at h
     by_cases hb : s.onBoard m.x m.y = true
@@ -52,7 +57,7 @@ theorem legal_onBoard {s : State} {m : Move} (h : (Spec.step s (Spec.decode m)).
     · simp [h0, hb] at h
 
 /-- **the image of a legal move is legal in the image position** (bit-level positions, list-level legality) -/
-theorem slegal_image {basis : Array W} {Inv : Pos → Prop} (F : PosFacts basis Inv) {p q : Pos} {k : Fin 8}
+theorem slegal_image {basis : Array W} {Inv : Pos → Prop} (himg : ImageFact basis Inv) {p q : Pos} {k : Fin 8}
     {m sm : Move} (hp : Inv p) (hsz : p.cfg.size ≤ 8) (hq : imagePos basis p k = .ok q)
     (hm : SLegal p m) (hsm : transformMove p.cfg.size [k] m = .ok sm) : SLegal q sm := by
   have hs : (Spec.abs p).WF := by simp [State.WF, Spec.abs]
@@ -67,7 +72,7 @@ theorem slegal_image {basis : Array W} {Inv : Pos → Prop} (F : PosFacts basis 
   have hprod : Symm.prod [k] = k := by simp [Symm.prod, Sym.mul_one]
   rw [hprod] at e2
   unfold SLegal
-  rw [F.image p k q hp hq, e2]
+  rw [himg p k q hp hq, e2]
   have := Sym.step_equivariant k (Spec.abs p) hs (Spec.decode m)
   have hn : ((Spec.abs p).size : Int) = (p.cfg.size : Int) := rfl
   rw [hn] at this
@@ -193,6 +198,10 @@ def BookImg (basis : Array W) (size : Nat) (lines : List (List Move)) (q : Pos) 
   ∃ line ∈ lines, ∃ pre m suf, line = pre ++ m :: suf ∧
     ∃ p k, linePos basis size pre = .ok p ∧ imagePos basis p k = .ok q
 
+/-- the side condition `Ok` holds for every move of every line at the position it is played in -/
+def LinesOk (basis : Array W) (size : Nat) (lines : List (List Move)) (Ok : Pos → Move → Prop) : Prop :=
+  ∀ line ∈ lines, ∀ pre m suf, line = pre ++ m :: suf → ∀ p, linePos basis size pre = .ok p → Ok p m
+
 theorem linePos_snoc {basis : Array W} {size : Nat} {pre : List Move} {p p' : Pos} {m : Move}
     (h : linePos basis size pre = .ok p) (ha : p.apply basis m = .ok p') :
     linePos basis size (pre ++ [m]) = .ok p' := by
@@ -204,8 +213,9 @@ theorem linePos_snoc {basis : Array W} {size : Nat} {pre : List Move} {p p' : Po
     rw [List.foldlM_append]
     simp only [bind, Except.bind, h, List.foldlM_cons, List.foldlM_nil, ha, pure, Except.pure]
 
-theorem addLine_ok {basis : Array W} {Inv : Pos → Prop} (F : PosFacts basis Inv) {size : Nat} (hsz : size ≤ 8)
-    {lines : List (List Move)} {line : List Move} (hline : line ∈ lines) :
+theorem addLine_ok {basis : Array W} {size : Nat} {Inv : Pos → Prop} {Ok : Pos → Move → Prop} (F : PosFacts basis size Inv Ok)
+    (himg : ImageFact basis Inv) (hsz : size ≤ 8)
+    {lines : List (List Move)} (hOk : LinesOk basis size lines Ok) {line : List Move} (hline : line ∈ lines) :
     ∀ (ms pre : List Move) (p : Pos) (b b' : Book), line = pre ++ ms → linePos basis size pre = .ok p →
       Inv p → p.cfg.size = size → BookOK (BookImg basis size lines) b →
       Book.addLine basis size ms p b = .ok b' → BookOK (BookImg basis size lines) b' := by
@@ -227,19 +237,19 @@ theorem addLine_ok {basis : Array W} {Inv : Pos → Prop} (F : PosFacts basis In
         | error e => simp [h3] at h
         | ok p' =>
           simp only [h3] at h
-          obtain ⟨i1, i2, i3⟩ := F.apply p m p' hi h3
+          obtain ⟨i1, i2, i3⟩ := F.apply p m p' hi (hOk line hline pre m rest hl p hp) h3
           have hleg : SLegal p m := by unfold SLegal; rw [i3]; rfl
           have hb1 : BookOK (BookImg basis size lines) b1 := by
             apply foldImages_ok rs b b1 hb _ h2
             intro qk hqk
-            have himg := (symmetries_mem basis p rs h1).1 qk hqk
-            refine ⟨⟨line, hline, pre, m, rest, hl, p, qk.2, hp, himg⟩, ?_⟩
+            have himg' := (symmetries_mem basis p rs h1).1 qk hqk
+            refine ⟨⟨line, hline, pre, m, rest, hl, p, qk.2, hp, himg'⟩, ?_⟩
             intro sm hsm
             rw [← hs] at hsm
-            exact slegal_image F hi (by rw [hs]; exact hsz) himg hleg hsm
+            exact slegal_image himg hi (by rw [hs]; exact hsz) himg' hleg hsm
           exact ih (pre ++ [m]) p' b1 b' (by rw [hl]; simp) (linePos_snoc hp h3) i1 (by rw [i2, hs]) hb1 h
 
-theorem new_ok {cfg : Cfg} {p : Pos} (h : Pos.new cfg = .ok p) : p.cfg.size = cfg.size ∧ cfg.size ≤ 8 := by
+theorem new_size_ok {cfg : Cfg} {p : Pos} (h : Pos.new cfg = .ok p) : p.cfg.size = cfg.size ∧ cfg.size ≤ 8 := by
   unfold Pos.new at h
   by_cases h1 : cfg.size ≥ Facts.defaultPieces.length
   · simp [h1] at h
@@ -251,8 +261,10 @@ theorem new_ok {cfg : Cfg} {p : Pos} (h : Pos.new cfg = .ok p) : p.cfg.size = cf
 
 /-- **Every reply stored in a successfully built book is legal (by the rule book) in one of the rebuilt
 images of a book-line position that has the entry's key; every entry has a reply, all weights are positive.** -/
-theorem build_ok {basis : Array W} {Inv : Pos → Prop} (F : PosFacts basis Inv) {size : Nat}
-    {lines : List (List Move)} {book : Book} (h : buildOpeningBook basis size lines = .ok book) :
+theorem build_ok {basis : Array W} {size : Nat} {Inv : Pos → Prop} {Ok : Pos → Move → Prop} (F : PosFacts basis size Inv Ok)
+    (himg : ImageFact basis Inv)
+    {lines : List (List Move)} (hOk : LinesOk basis size lines Ok) {book : Book}
+    (h : buildOpeningBook basis size lines = .ok book) :
     BookOK (BookImg basis size lines) book := by
   unfold buildOpeningBook at h
   cases hn : Pos.new { size := size, pieces := 0, capstones := 0, blackWinsTies := false } with
@@ -262,7 +274,7 @@ theorem build_ok {basis : Array W} {Inv : Pos → Prop} (F : PosFacts basis Inv)
     | cons l rest => rw [List.foldlM_cons] at h; simp [hn, bind, Except.bind] at h
   | ok p =>
     simp only [hn, bind, Except.bind] at h
-    obtain ⟨s1, s2⟩ := new_ok hn
+    obtain ⟨s1, s2⟩ := new_size_ok hn
     have hp : linePos basis size [] = .ok p := by
       simp [linePos, hn, bind, Except.bind, pure, Except.pure]
     have gen : ∀ (ls : List (List Move)) (b b' : Book), (∀ l ∈ ls, l ∈ lines) →
@@ -279,7 +291,7 @@ theorem build_ok {basis : Array W} {Inv : Pos → Prop} (F : PosFacts basis Inv)
         | error e => simp [h1, bind, Except.bind] at h
         | ok b1 =>
           simp only [h1, bind, Except.bind] at h
-          have hb1 := addLine_ok F s2 (hsub line (by simp)) line [] p b b1 rfl hp (F.new _ _ hn) s1 hb h1
+          have hb1 := addLine_ok F himg s2 hOk (hsub line (by simp)) line [] p b b1 rfl hp (F.new _ hn) s1 hb h1
           exact ih b1 b' (fun l hl => hsub l (List.mem_cons_of_mem _ hl)) hb1 h
     exact gen lines _ book (fun _ h => h) (by intro e he; simp at he) h
 
@@ -319,12 +331,14 @@ theorem pickChild_first (rnd : Nat → Nat → Nat) (hr : ∀ i n, 0 < n → rnd
 contract of `Int31n`, and a looked-up position `q` that does not collide with a *different* board among the
 rebuilt images of book-line positions (same hash ⇒ same board, reserves and ply as seen through `At`): if
 `GetMove` answers, the answer is legal in `q` by the rule book. -/
-theorem getMove_legal {basis : Array W} {Inv : Pos → Prop} (F : PosFacts basis Inv) {size : Nat}
-    {lines : List (List Move)} {book : Book} (hb : buildOpeningBook basis size lines = .ok book)
+theorem getMove_legal {basis : Array W} {size : Nat} {Inv : Pos → Prop} {Ok : Pos → Move → Prop} (F : PosFacts basis size Inv Ok)
+    (himg : ImageFact basis Inv)
+    {lines : List (List Move)} (hOk : LinesOk basis size lines Ok) {book : Book}
+    (hb : buildOpeningBook basis size lines = .ok book)
     (q : Pos) (rnd : Nat → Nat → Nat) (hr : ∀ i n, 0 < n → rnd i n < n)
     (hnc : ∀ q₀, BookImg basis size lines q₀ → q₀.hashOf = q.hashOf → Spec.abs q₀ = Spec.abs q)
     (m : Move) (h : book.getMove q rnd = .ok (some m)) : SLegal q m := by
-  have ok := build_ok F hb
+  have ok := build_ok F himg hOk hb
   unfold Book.getMove at h
   cases hf : book.find q.hashOf with
   | none => simp [hf] at h
